@@ -1,4 +1,4 @@
-"""Sequence stream for the Circuit object (used by checks/c15.py; checks/c09.py can use it for hpwl).
+"""Sequence stream for the Circuit object (used by checks/c15.py and checks/c09.py; placement-stage sequences, tag SP, by checks/c01.py).
 
 One Circuit is edited through the real public setters (setCellX/Y/Width/Height/Orientation/IsFixed/IsObstruction,
 setSolution, setRows, setupRows, addNet, setNets, copy assignment) in random order and is queried after every step
@@ -41,13 +41,48 @@ def run_sequences(seed, count, extra_cases=()):
     return records, anomalies, stats
 
 
+PRecord = collections.namedtuple("PRecord", "case step op args state nets mine fresh")
+# a placement-stage step of an SP case (harness/circseq.cpp): op 16 legalize / 17 placeDetailed with its int arguments; state: LG
+# circuit tokens (rows + 8-field cells) of the public state right before the call; nets: as the harness set them; mine: outcome on
+# the object with its history; fresh: outcome on a circuit built from scratch with that public state
+
+
+def run_placement_sequences(seed, count, extra_cases=()):
+    """SP cases: legalize / placeDetailed called on ONE Circuit between public edits, and on a fresh circuit holding the same public
+    state.  returns (precords, anomalies, stats); anomalies = [(case, text)] for steps that threw / crashed"""
+    harness = common.build_harness("circseq")
+    cases = list(extra_cases) + (common.harness_gen(harness, ["p", seed, count]) if count > 0 else [])
+    impl, _, _ = common.run_both([harness, "run"], None, cases, chunk=300)
+    precs, anomalies = [], []
+    stats = {"sequences": len(cases), "steps": 0, "other_queries": 0, "legalize_calls": 0, "placeDetailed_calls": 0}
+    for case, out in zip(cases, impl):
+        stats["steps"] += _nsteps(case)
+        for rec in out.split(" | "):
+            f = rec.split(" ~ ")
+            if len(f) == 7 and f[1] == "L":
+                a = [int(t) for t in f[2].split()]
+                precs.append(PRecord(case, int(f[0]), a[0], a[1:], f[3].split(), f[4].strip(), f[5].strip(), f[6].strip()))
+                stats["legalize_calls" if a[0] == 16 else "placeDetailed_calls"] += 1
+            elif len(f) == 6:
+                stats["other_queries"] += 1
+            elif len(f) == 2 and f[1].startswith("= "):
+                stats["other_queries"] += int(f[1][2:])
+            else:
+                anomalies.append((case, rec))
+    return precs, anomalies, stats
+
+
 def _nsteps(case):
-    """number of steps of an SQ line (parsed from the front: rows, extra obstacles, cells, nets, then ns)"""
+    """number of steps of an SQ / SP line (parsed from the front: rows, extra obstacles (SQ), cells, nets, then ns)"""
     v = [int(t) for t in case.split()[1:]]
+    sp = case.startswith("SP")
     try:
         p = 1 + 5 * v[0]
-        p += 1 + 4 * v[p]
-        p += 1 + 7 * v[p]
+        if sp:
+            p += 1 + 8 * v[p]
+        else:
+            p += 1 + 4 * v[p]
+            p += 1 + 7 * v[p]
         nn = v[p]
         p += 1
         for _ in range(nn):
@@ -61,7 +96,8 @@ def steps_text(case, upto=None):
     """readable list of the steps of an SQ line (for violation reports)"""
     names = {1: "setCellX", 2: "setCellY", 3: "setCellWidth", 4: "setCellHeight", 5: "setCellOrientation", 6: "setCellIsFixed",
              7: "setCellIsObstruction", 8: "setSolution", 9: "setRows(edit row)", 10: "setRows(drop/add row)", 11: "setupRows",
-             12: "addNet", 13: "setNets(keep first a)", 14: "(no edit)", 15: "circuit = copy of itself"}
+             12: "addNet", 13: "setNets(keep first a)", 14: "(no edit)", 15: "circuit = copy of itself",
+             16: "legalize(effort a; b=1: ordering c/10 d/10 e/10)", 17: "placeDetailed(effort a; reorderingMaxNbCells b, reorderingNbRows c if > 0)"}
     v = case.split()
     ns = _nsteps(case)
     tail = v[len(v) - 8 * ns:]
